@@ -373,7 +373,7 @@ def run(ctx):
   setup(ctx)
   quick = ctx.tier == "quick"
   corpus = load_corpus()
-  cases = corpus + gen_cases(ctx, 44 if quick else 480, 24 if quick else 240)
+  cases = corpus + gen_cases(ctx, 44 if quick else 360, 24 if quick else 180)
   ctx.log("%d cases (%d from corpus)" % (len(cases), len(corpus)))
   results = run_impl(cases)
   ctx.log("implementation done")
